@@ -464,7 +464,7 @@ def jobs(tier):
 
 
 BOUNDS = {
-    "quick": "sources S<=3 (merge S<=3), items per source N<=3..5 (per tool, see jobs), keys/ints unbounded, one flavour (async generator sources, def callables)",
+    "quick": "sources S<=3 (merge S<=3), items per source N<=3..5 (per tool, see jobs), keys/ints unbounded; main jobs with async-generator sources and def callables; extra jobs (N<=2..4): class-based / aclose-less / dual-protocol sources, one iterator in several positions (zip, zip_longest x2/x3, compress), callables returning ready awaitables, falsy and value-comparing (unhashable) callable objects, callables raising for solver-chosen items over sources whose aclose() returns a truthy value, plain None/falsy items, None as a tee item; the predicate differs from the items' own truth value",
     "thorough": "S<=4, N<=4..7, keys/ints unbounded",
 }
 OUTSIDE = [
